@@ -119,11 +119,18 @@ CrdDaemon == { [fn |-> "daemon", it |-> it,
                          trunk |-> TRUE, erdma |-> it.eri > 0, ipam |-> "crd"]]
                : it \in SizeInst, me \in MaxEnis, p \in {<<5, 0, 0>>, <<1000, 1000, 0>>, <<5, 50, 1>>} }
 
+(* the limits cached in the node annotation may describe another (larger) instance type: the instance was resized, *)
+(* or there is no annotation at all and the limits come from the OpenAPI; the oracle judges against the real type  *)
+AnnoDaemon == { [fn |-> "daemon", it |-> it, anno |-> a,
+                 cfg |-> [maxEni |-> 0, minEni |-> 0, maxPool |-> mp, minPool |-> 0, stack |-> s,
+                          trunk |-> TRUE, erdma |-> TRUE, ipam |-> ""]]
+                : it \in { x \in FeatInst : x.q <= 4 }, a \in {"stale", "absent"}, s \in {"ipv4", "dual"}, mp \in {5, 1000} }
+
 NodeSet == { [fn |-> "node", it |-> it,
               cfg |-> [maxPool |-> 5, minPool |-> 0, stack |-> s, trunk |-> tr, erdma |-> rd, excl |-> x]]
              : it \in FeatInst, s \in Stacks, tr \in BOOLEAN, rd \in BOOLEAN, x \in BOOLEAN }
 
-DomSet == FeatDaemon \cup SizeDaemon \cup CrdDaemon \cup NodeSet
+DomSet == FeatDaemon \cup SizeDaemon \cup CrdDaemon \cup AnnoDaemon \cup NodeSet
 DomSeq == SetToSeq(DomSet)
 
 ------------------------------------------------------------------------
